@@ -35,6 +35,7 @@ class BM(Model):
     __slots__ = ['a', 'b', 'stop', 'timestep']        # `timestep` here is the user's own attribute (a step length)
     built = []
     bad = None
+    bad_kind = "Boom"
     own_timestep = None
 
     def __init__(self, a, b, stop):
@@ -44,6 +45,8 @@ class BM(Model):
             self.timestep = BM.own_timestep
         BM.built.append(self)
         if BM.bad is not None and len(BM.built) - 1 == BM.bad:
+            if BM.bad_kind == "StopIteration":
+                next(iter([]))             # e.g. user code calling next() on an exhausted iterator
             raise Boom("run %d fails" % BM.bad)
         self.systems.add_system(RecC("c", self))
         self.systems.add_system(RecD("d", self))
@@ -163,21 +166,31 @@ def error_propagates(pos: int, o0: int, o1: int, o2: int, o3: int) -> bool:
     post: _
     """
     hx.begin()
-    procs = hx.P['procs']
-    BM.built, BM.bad = [], pos
+    procs, kind, mode = hx.P['procs'], hx.P.get('exc', 'Boom'), hx.P.get('mode', 'prop')
+    BM.built, BM.bad, BM.bad_kind = [], pos, kind
     FakePool.order = [o0, o1, o2, o3]
     saved = B.Pool
     B.Pool = FakePool
     try:
         try:
-            B.batch_run(BM, {"a": [0, 1], "b": [0, 1], "stop": 1}, collectors="c", processes=procs, max_timesteps=2)
-            return hx.end(hx.fail("an error raised by execution %d was dropped" % pos))
-        except Boom:
+            res = B.batch_run(BM, {"a": [0, 1], "b": [0, 1], "stop": 1}, collectors="c", processes=procs, max_timesteps=2)
+        except (Boom, StopIteration, RuntimeError) as e:
             hx.reach('propagated')
-            return hx.end(True)
+            return hx.end(True)           # the error reached the caller (its type may be wrapped, PEP 479 style)
+        hx.reach('returned')
+        if mode == 'prop':
+            return hx.end(hx.fail("an error raised by execution %d was dropped" % pos, error=kind, processes=procs))
+        # recorded deviating behaviour (F7): the call returns normally; what it returns are results of OTHER executions,
+        # each at most once
+        allowed = [[(a, b, 0)] for a in (0, 1) for b in (0, 1)]
+        for r in res:
+            if r not in allowed:
+                return hx.end(hx.fail("F7: unrecorded behaviour", got=res))
+            allowed.remove(r)
+        return hx.end(len(res) < 4)
     finally:
         B.Pool = saved
-        BM.bad = None
+        BM.bad, BM.bad_kind = None, "Boom"
 
 
 _BADCOL = [5, 2.5, True, object]
@@ -220,6 +233,7 @@ def obligations(tier):
         X("parallel_any_order", parallel_any_order,
           parts=[{"na": a, "nb": b, "reps": r, "procs": p} for (a, b, r) in shapes for p in (2,)] + [{"na": 2, "nb": 1, "reps": 1, "procs": 16}],
           labels=("permuted",), labels_for=lambda p: ("permuted",) if p["na"] * p["nb"] * p["reps"] > 1 else (), timeout=1200, encoded=enc),
-        X("error_propagates", error_propagates, parts=[{"procs": 1}, {"procs": 2}], labels=("propagated",), timeout=600, encoded=enc),
+        X("error_propagates", error_propagates, parts=[{"procs": 1}, {"procs": 2}, {"procs": 1, "exc": "StopIteration"}, {"procs": 2, "exc": "StopIteration"}],
+          labels=("propagated",), timeout=600, encoded=enc),
         X("collectors_validation", collectors_validation, labels=("rejected",), timeout=120, encoded=(B.batch_run,)),
     ]
